@@ -20,6 +20,13 @@ CHECKS = {
   'note': 'String index arithmetic (SplitBySymbol, TrimWhitespace, IsInteger, Substr, SizeInCodePoints) is NOT decided: it quantifies over unbounded strings and no sound '
           'abstract interpreter for this C++ is available here. Overlaps on empty ranges is only required to be symmetric (class documents position semantics). Trusts the mini-evaluator (engine/evalmini.py).',
  },
+ 'C14': {
+  'technique': 'effect summaries of the graph mutators (edge-list pairing, uid-table co-update) + structural rules on traversal code (edge direction, colour protocol via guard analysis with Kleene evaluation, closure shape, SCC pass direction, mirror sibling)',
+  'text': 'Decides the representation invariants every query depends on (both edge lists updated symmetrically on all paths of all mutators, uid table in step with the vertex array, '
+          'tombstones edge-free and excluded from emitting loops) and the structural preconditions of each traversal (direction per query, three-colour protocol, worklist closure shape, '
+          'Kosaraju direction of the component pass, UpdateFor guard). Because these hold for every path of the code they hold after every update history.',
+  'note': 'Does not decide that the answers are exact as data; a rewrite of a traversal into a different algorithm (e.g. recursive DFS) makes the corresponding rule ANALYSIS-BROKEN (exit 2), not a pass. Trusts clang AST/CFG and the normal form in engine/shape.py.',
+ },
 }
 
 _PENDING = 'rule module not yet implemented in this round; see DESIGN.md section 4 for the clauses planned'
